@@ -239,5 +239,11 @@ def run(ctx):
         c02.rule_used_set(PrefixCtx(ctx, "C02", "C11"), M2, M2.deal, P.Prov(M2.deal), pl2["turn_from"][1], pl2["river_from"][1])
     except Unrecognised as e:
         ctx.unrecognised("C11.R-used-set", e.msg, e.fn, e.line)
+    # .. and following a suit relabelling (or a reordering of the flop as given) needs the deck to be exactly the complement of
+    # the board, whichever cards the board holds and in whichever order (C02's deck rule)
+    try:
+        c02.rule_deck(PrefixCtx(ctx, "C02", "C11"), evalmodel.get(F))
+    except Unrecognised as e:
+        ctx.unrecognised("C11.deck", e.msg, e.fn, e.line)
     ctx.assume("the deck / odometer order only permutes the multiset of deals (C02 decides necessary conditions of the enumeration, not this)")
     ctx.assume("relabelling suits maps ranges to ranges (HandRange is keyed by normalised pairs, C14)")
